@@ -538,7 +538,7 @@ func c07Replay(pl json.RawMessage) (string, []core.Violation) {
 func init() {
 	core.Register(&core.PropSpec{
 		ID: "C07", Level: "exploration",
-		Rule:     "string literals in both quote styles: every \\xHH, every \\uHHHH, \\u{...} for 37 boundary code points (every power-of-two plane boundary up to U+10FFFF; the reference engine itself rejects U+10FFFF, which is counted as outside the domain) x 1..8 digits x case, every ASCII byte raw / backslash-escaped / embedded, line continuations, raw UTF-8 text, ALL pairs over a 45-fragment alphabet (thorough: 61) and all triples over 16 (thorough: 30); backtick strings: all sequences <= 3 (thorough 4) over 16 fragments incl. escaped backtick, raw LF, trailing spaces + LF, tab, tab + LF, CRLF, ${a}; numbers: 0..1000, 64-bit boundaries, all fractions with <=3+3 digits over {0,1,5,9}, exponent shapes, every hex/binary/octal literal of <= 3 digits + 64-bit boundaries, hexadecimal literals of 4..5 (6) digits over the look-alike digits {0,1,e,E,b,B,d,f}, exponents with leading zeros; each accepted literal's value (UTF-16 code units / String(v)) is compared between source and emitted code (compact, pretty, pretty+tabs without semicolons) on the reference engine. Literals the engine rejects are outside the domain; literals xjs rejects are counted (acceptance is C02's subject). non-trivial = accepted literal compared (every literal is distinct) Added families: every first character of a literal body after every operator (and after unary - ! - -); literals as object keys (28 keys x both quotes) and number literals as member-access objects; literal interplay (first literal with quote/comment characters or escapes at its end, second multi-line with trailing blanks, same line and different lines of one function body); long literals: 6 kinds (both quotes, raw, raw with line breaks, escapes, long fraction) x 23 lengths 2^8, 2^12, 2^16, 2^20 (each -2..+2), 100000, 1.5 MiB, 2 MiB+1, value observed through length, ends and marker positions; escape adjacency: every (backslash + printable byte, raw printable byte) pair and the reverse in both quote styles and in backtick strings; continuation sandwich: every ordered pair of the 61 fragments around a line continuation (LF, CRLF, CR).",
+		Rule:     "string literals in both quote styles: every \\xHH, every \\uHHHH, \\u{...} for 37 boundary code points (every power-of-two plane boundary up to U+10FFFF; the reference engine itself rejects U+10FFFF, which is counted as outside the domain) x 1..8 digits x case, every ASCII byte raw / backslash-escaped / embedded, line continuations, raw UTF-8 text, ALL pairs over a 45-fragment alphabet (thorough: 61) and all triples over 16 (thorough: 30); backtick strings: all sequences <= 3 (thorough 4) over 16 fragments incl. escaped backtick, raw LF, trailing spaces + LF, tab, tab + LF, CRLF, ${a}; numbers: 0..1000, 64-bit boundaries, all fractions with <=3+3 digits over {0,1,5,9}, exponent shapes, every hex/binary/octal literal of <= 3 digits + 64-bit boundaries, hexadecimal literals of 4..5 (6) digits over the look-alike digits {0,1,e,E,b,B,d,f}, exponents with leading zeros; each accepted literal's value (UTF-16 code units / String(v)) is compared between source and emitted code (compact, pretty, pretty+tabs without semicolons) on the reference engine. Literals the engine rejects are outside the domain; literals xjs rejects are counted (acceptance is C02's subject). non-trivial = accepted literal compared (every literal is distinct) Added families: every first character of a literal body after every operator (and after unary - ! - -); literals as object keys (28 keys x both quotes) and number literals as member-access objects; literal interplay (first literal with quote/comment characters or escapes at its end, second multi-line with trailing blanks, same line and different lines of one function body); long literals: 6 kinds (both quotes, raw, raw with line breaks, escapes, long fraction) x 23 lengths 2^8, 2^12, 2^16, 2^20 (each -2..+2), 100000, 1.5 MiB, 2 MiB+1, value observed through length, ends and marker positions; escape adjacency: every (backslash + printable byte, raw printable byte) pair and the reverse in both quote styles and in backtick strings; continuation sandwich: every ordered pair of the 61 fragments around a line continuation (LF, CRLF, CR). Added (round 14): decoded-escape neighbours - every printable ASCII character in 4 escaped spellings after \\0, an escaped / hex-escaped / brace-escaped backslash, a letter or nothing, before a digit, a letter or the end.",
 		Assume:   []string{"goja evaluates literals per ECMAScript (both sides use it)"},
 		QuickSec: 300, ThorSec: 1800, Run: c07Run, Replay: c07Replay,
 		Evals: "literal_evaluations", Nontriv: "literals",
